@@ -26,7 +26,8 @@ ASSUMPTIONS = ["PARTIAL by nature: the loop model is proved to refine the snapsh
                "registered descriptors are >= 0 (hypothesis act_ok of C18_refines; nothing else is assumed of the callbacks)",
                "two loops are exercised: the default ppoll-based one (Linux) and a minimal poll loop without ->signal hook (self-pipe fallback)", "malloc does not fail",
                "tickit_run is entered through the script op u<k>: the harness calls tickit_stop from inside the k-th ppoll of the run at the latest; "
-               "the SIGINT watch tickit_run keeps for its duration is not modelled (no script uses signal 2); tickit_run / tickit_tick are not re-entered from callbacks"]
+               "the SIGINT watch tickit_run keeps for its duration is modelled (SIGINT stops the run); a run does not end with SIGINT still blocked-pending "
+               "(cancelling the watch would unblock it and kill the process); tickit_run / tickit_tick are not re-entered from callbacks"]
 TRUSTED = ["model coq/LoopPipeDefs.v of the self-pipe fallback (pipe as a byte counter) and the checker coq/LoopPipeSpec.v (obligation per raise and watcher)",
            "model coq/LoopSigDefs.v hand-written after src/evloop-default.c and src/tickit.c (with fixes/C18-*.patch applied); "
            "specification coq/LoopSigSpec.v (snapshot semantics, no errno, no revents table; model proved to refine it in coq/LoopSigRefine.v)",
@@ -79,6 +80,19 @@ def gen(tier, seed, info):
                             nst += 1
                             yield "cb1=%s cb2=%s cb3=e0 cb4=- %s %s %s %s" % (c1, c2, w, lt, a, mode)
     info["stop_run_cases"] = nst
+    # ---- SIGINT during tickit_run: the watch tickit_run keeps for its duration stops the loop (the
+    #      signal is never left pending when the run ends: the limit leaves room for one more pass)
+    nint = 0
+    for w in ["ws10:0:2", "ws10:0:2 ws12:0:3"]:
+        for pre in ["K2", "K2 K10", "K10 K2", "cb1=k2 l0:1", "cb2=k2 K10", "cb1=l0:1 l0:1 K2", "cb1=k2 l0:4 l0:1", "l0:4"]:
+            for lim in [3, 5]:
+                for c3 in ["-", "k10"]:
+                    cbs = [t for t in pre.split() if t.startswith("cb")]
+                    rest = [t for t in pre.split() if not t.startswith("cb")]
+                    nint += 1
+                    yield "%s cb3=%s cb4=- %s %s u%d r0 K10 r0" % (" ".join(cbs), c3, w, " ".join(rest), lim)
+    info["sigint_during_run_cases"] = nint
+    n += nint
     # ---- signal numbers above SIGWINCH and histories that free a signums[] slot first (a cancelled
     #      watch, or tickit_run's own SIGINT watch), so that the new watch REUSES a slot
     nhi = 0
